@@ -5,6 +5,7 @@
 
 use crate::common::*;
 use crate::gen::*;
+use crate::refmodel::{render_program, MEvent};
 use abasic_core::InterpreterState;
 use rayon::prelude::*;
 use serde_json::json;
@@ -66,6 +67,11 @@ fn replies() -> Vec<Reply> {
         Reply { text: " w z ", num: None, string: Some("\"w z\""), extra: Some(false) },
         Reply { text: "\"q:r\"", num: None, string: Some("\"q:r\""), extra: Some(false) },
         Reply { text: " \"a,b\" ", num: None, string: Some("\"a,b\""), extra: Some(false) },
+        Reply { text: "-0", num: Some("-0"), string: None, extra: Some(false) },
+        Reply { text: "+3", num: Some("3"), string: None, extra: Some(false) },
+        Reply { text: ".5", num: Some(".5"), string: None, extra: Some(false) },
+        Reply { text: "1e2", num: Some("100"), string: None, extra: Some(false) },
+        Reply { text: "12345678901234567890.5", num: Some("12345678901234567890.5"), string: None, extra: Some(false) },
     ]
 }
 
@@ -106,7 +112,82 @@ fn run_all(lines: &[String], script: &[String]) -> (RunOut, Sess) {
     (out, s)
 }
 
-pub fn run(_thorough: bool) -> Report {
+/// Reply scripts of the grammar pass (cycled): suitable, unsuitable-then-suitable, surplus
+/// items, empty, quoted. Numeric spellings are canonical, so that what a string variable
+/// receives for them is not in question.
+pub const SCRIPTS: [&[&str]; 5] = [&["5"], &["abc", "0"], &["1,2", ""], &["0", "x:y", "5"], &["-2", "\"q r\""]];
+
+pub fn script(i: usize, len: usize) -> Vec<String> {
+    SCRIPTS[i].iter().cycle().take(len).map(|s| s.to_string()).collect()
+}
+
+/// Grammar pass: every statement sequence over the INPUT menu, in the explored layouts, run
+/// with every reply script on the real interpreter and on the reference machine.
+fn grammar_pass(thorough: bool) -> (u64, u64, BTreeMap<String, u64>, Vec<Violation>) {
+    use crate::c03::*;
+    use crate::progs::*;
+    let menu = input_menu();
+    let base = menu.len() as u64;
+    // (statements, join mode: 2 = all layouts, 1 = none / all / each single join)
+    let plan: Vec<(usize, bool)> = if thorough { vec![(1, true), (2, true), (3, true), (4, true), (5, false)] } else { vec![(1, true), (2, true), (3, true), (4, false)] };
+    let mut programs = 0u64;
+    let mut with_requests = 0u64;
+    let mut ends: BTreeMap<String, u64> = BTreeMap::new();
+    let mut viol = vec![];
+    for (n, all) in plan {
+        let count = pow(base, n);
+        let joins = join_patterns(n, all);
+        let res: Vec<(u64, u64, Vec<String>, Vec<Violation>)> = (0..count)
+            .into_par_iter()
+            .map(|i| {
+                let idxs = decode_seq(i, base, n);
+                let seq: Vec<T> = idxs.iter().map(|k| menu[*k].1.clone()).collect();
+                let mut progs = 0u64;
+                let mut reqs = 0u64;
+                let mut ends = vec![];
+                let mut out = vec![];
+                for &j in &joins {
+                    let prog = layout(&seq, j);
+                    for si in 0..SCRIPTS.len() {
+                        let replies = script(si, 8);
+                        let (mut cap, mut undef) = (false, false);
+                        let (problem, m, mend) = compare_script(&prog, &replies, &mut cap, &mut undef);
+                        progs += 1;
+                        if m.events.iter().any(|e| matches!(e, MEvent::Reenter | MEvent::ExtraIgnored)) || matches!(mend, ModelEnd::NeedInput) {
+                            reqs += 1;
+                        }
+                        ends.push(match &mend {
+                            ModelEnd::Err(k, _) => format!("Err({})", k),
+                            o => format!("{:?}", o),
+                        });
+                        if let Some((sig, detail)) = problem {
+                            let lines = render_program(&prog);
+                            out.push(Violation {
+                                signature: format!("{} with replies {:?} :: {}", lines.join(" | "), SCRIPTS[si], sig),
+                                detail,
+                                case: case_program(&lines, &replies, 1),
+                            });
+                        }
+                    }
+                }
+                (progs, reqs, ends, out)
+            })
+            .collect();
+        for (p, r, e, v) in res {
+            programs += p;
+            with_requests += r;
+            for x in e {
+                *ends.entry(x).or_insert(0) += 1;
+            }
+            if viol.len() < 2000 {
+                viol.extend(v);
+            }
+        }
+    }
+    (programs, with_requests, ends, viol)
+}
+
+pub fn run(thorough: bool) -> Report {
     let mut rep = Report::new("C08", "exploration");
     let ctxs = contexts();
     let reps = replies();
@@ -304,6 +385,24 @@ pub fn run(_thorough: bool) -> Report {
     if classes.len() < 2 {
         machinery("vacuous: a single outcome class");
     }
+    let (gp, gp_req, gp_ends, gp_viol) = grammar_pass(thorough);
+    evals += gp;
+    nontrivial += gp_req;
+    if gp_req * 4 < gp {
+        machinery("vacuous: fewer than a quarter of the grammar-pass runs saw REENTER, EXTRA IGNORED or an unanswered request");
+    }
+    {
+        // shortest programs first, one violation per problem kind and first template
+        let mut v = gp_viol;
+        v.sort_by_key(|x| x.signature.len());
+        for x in v {
+            rep.violating_cases += 1;
+            let kind = x.signature.rsplit(" :: ").next().unwrap_or("").to_string();
+            if seen.insert(format!("grammar {}", kind)) {
+                rep.violations.push(x);
+            }
+        }
+    }
     rep.coverage = json!({
         "evaluations": evals,
         "distinct_nontrivial": nontrivial,
@@ -314,6 +413,11 @@ pub fn run(_thorough: bool) -> Report {
         "replies": reps.iter().map(|r| r.text).collect::<Vec<_>>(),
         "reenter_prefixes": [0, 1, 2],
         "outcome_classes": classes,
+        "grammar_pass_runs": gp,
+        "grammar_pass_runs_with_reenter_extra_or_open_request": gp_req,
+        "grammar_pass_reference_ends": gp_ends,
+        "grammar_pass_menu": crate::progs::input_menu().iter().map(|m| m.0).collect::<Vec<_>>(),
+        "grammar_pass_reply_scripts": SCRIPTS,
         "samples": [{"program": instantiate(&ctxs[4].1, "INPUT A(2)"), "replies": ["abc", "1,2"]}],
     });
     rep.assumptions = vec![
